@@ -741,17 +741,27 @@ func (multi *MultiEpoch) processSlotTransactions(
 	gsfaReader *gsfa.GsfaReaderMultiepoch,
 	gsfaReadersLoaded bool,
 ) error {
+	// Validate the client-provided accounts once (they are parsed with Must* below).
+	if filter != nil {
+		for _, accounts := range [][]string{filter.AccountInclude, filter.AccountExclude, filter.AccountRequired} {
+			for _, acc := range accounts {
+				if _, err := solana.PublicKeyFromBase58(acc); err != nil {
+					return status.Errorf(codes.InvalidArgument, "invalid account %q: %v", acc, err)
+				}
+			}
+		}
+	}
 
 	filterOutTxn := func(tx solana.Transaction, meta any) bool {
 		if filter == nil {
 			return true
 		}
 
-		if !(*filter.Vote) && IsSimpleVoteTransaction(&tx) { // If vote is false, we should filter out vote transactions
+		if filter.Vote != nil && !(*filter.Vote) && IsSimpleVoteTransaction(&tx) { // If vote is false, we should filter out vote transactions
 			return false
 		}
 
-		if !(*filter.Failed) { // If failed is false, we should filter out failed transactions
+		if filter.Failed != nil && !(*filter.Failed) { // If failed is false, we should filter out failed transactions
 			err := getErr(meta)
 			if err != nil {
 				return false
